@@ -283,6 +283,7 @@ def main():
                   "off the axis: N in %r and their conjugates (concrete), nf, L symbolic on the same boxes; tolerance 1e-9 * (sum of |coefficients| on the box)" % (OFFAXIS,),
                   "orders: unpolarised space-like a_s^1..4 (both N3LO variants), QED grids (4,2), time-like a_s^1..3, polarised a_s^1..3, "
                   "matching a_s^1..3 (POLE and MSBAR), polarised matching a_s^1..2, time-like matching a_s^1",
+                  "quick tier: eko N3LO approximations on the real axis with nf=4 (orders 1-3 with nf symbolic), QED grids (3,2) for nf in {4,5} and (4,2) FHMRUVV for nf=4",
                   "quick tier: O(a_s^3) matching on the real axis at N in {5/2, 7/2, 31/4} (mode b; A_gq^(3) has a removable pole at N=2) instead of symbolic N"]
     chk.out_of_claim = ["conjugation symmetry at complex N other than the listed points is inferred (Schwarz reflection) from the real-axis result, not decided directly",
                         "cern_polygamma itself on the real axis (stubbed in mode a); the float evaluation's rounding",
@@ -290,14 +291,24 @@ def main():
     chk.stubs = ["mode a: cern_polygamma -> real atoms psi_k(z) for real z (axiom: psi_k real on the real axis), recurrence psi_k(z+1) = psi_k(z) + (-1)^k k!/z^(k+1), values at z=1"]
     chk.assumptions = ["Schwarz reflection: a function analytic on a connected domain symmetric about the real axis and real on a real interval satisfies f(conj z) = conj f(z)"]
     v1 = (1, 2, 1, 2, 2, 1, 2)
-    chk.case("real.sl.as4", case_real, sector="sl.as4", mode="a", nf_hi=5)
+    if tier == "quick":
+        # symbolic N and nf together cost ~2 min for the eko N3LO approximations: quick tier fixes nf there
+        chk.case("real.sl.as4.nf4", case_real, sector="sl.as4", mode="a", nf_fixed=4)
+        chk.case("real.sl.as3", case_real, sector="sl.as4", mode="a", order=3)
+    else:
+        chk.case("real.sl.as4", case_real, sector="sl.as4", mode="a", nf_hi=5)
     chk.case("real.sl.fhmruvv", case_real, sector="sl.fhmruvv", mode="a", nf_hi=5)
     chk.case("real.tl", case_real, sector="tl", mode="a")
     chk.case("real.pol", case_real, sector="pol", mode="a")
-    for nf in ((4, 5) if tier == "quick" else (3, 4, 5, 6)):
-        chk.case("real.qed.as4.nf%d" % nf, case_real, sector="qed.as4", mode="a", nf_fixed=nf)
-        if nf <= 5:
-            chk.case("real.qed.fhmruvv.nf%d" % nf, case_real, sector="qed.fhmruvv", mode="a", nf_fixed=nf)
+    if tier == "quick":
+        chk.case("real.qed.o32.nf4", case_real, sector="qed.fhmruvv", mode="a", nf_fixed=4, order=(3, 2))
+        chk.case("real.qed.o32.nf5", case_real, sector="qed.fhmruvv", mode="a", nf_fixed=5, order=(3, 2))
+        chk.case("real.qed.fhmruvv.nf4", case_real, sector="qed.fhmruvv", mode="a", nf_fixed=4)
+    else:
+        for nf in (3, 4, 5, 6):
+            chk.case("real.qed.as4.nf%d" % nf, case_real, sector="qed.as4", mode="a", nf_fixed=nf)
+            if nf <= 5:
+                chk.case("real.qed.fhmruvv.nf%d" % nf, case_real, sector="qed.fhmruvv", mode="a", nf_fixed=nf)
     chk.case("real.ome.sl.as2", case_real, sector="ome.sl", mode="a", order=2, nf_hi=5)
     chk.case("real.ome.pol", case_real, sector="ome.pol", mode="a", nf_hi=5)
     chk.case("real.ome.tl", case_real, sector="ome.tl", mode="a", nf_hi=5)
